@@ -100,6 +100,22 @@ def execute(backend, seq, h, n=2):
             smp = np.asarray(result.samples)
             if smp.size:
                 out[("samples/s",)] = np.real(np.asarray(smp, dtype=complex)).ravel() / s_of(h)
+            # the same Program object (same operation objects) executed a second time on a fresh engine: same answers
+            eng2 = sf.Engine(backend, backend_options={"cutoff_dim": CUT} if backend == F else None)
+            result2 = eng2.run(prog)
+            out2 = observe(backend, result2.state, h) if n == 2 else observe1(backend, result2.state, h)
+            smp2 = np.asarray(result2.samples)
+            if smp2.size:
+                out2[("samples/s",)] = np.real(np.asarray(smp2, dtype=complex)).ravel() / s_of(h)
+            diff = None
+            for key, v in out.items():
+                if key[0].startswith("__"):
+                    continue
+                a_, b_ = np.asarray(v, dtype=float), np.asarray(out2.get(key), dtype=float)
+                if a_.shape != b_.shape or (a_.size and np.max(np.abs(a_ - b_)) > 1e-9 * max(1.0, float(np.max(np.abs(a_))))):
+                    diff = key
+                    break
+            out[("__rerun__",)] = diff
     finally:
         sf.hbar = old
     return out
@@ -212,6 +228,8 @@ def check(backend, seq, res, n=2):
             continue
         if got[("__mutated__",)]:
             res.violation(f"C15|query-mutates-state|{backend}", f"querying the state of [{fmt(seq)}] changed its data at hbar = {h}", dict(case, hbar=h))
+        if got.get(("__rerun__",)) is not None:
+            res.violation(f"C15|second-execution-differs|{backend}|{'+'.join(sorted(set(dim))) or 'dimensionless'}", f"[{fmt(seq)}] on {backend} at hbar = {h}: executing the same Program object a second time on a fresh engine changes {got[('__rerun__',)]}", dict(case, hbar=h))
         for key, b in base.items():
             if key[0].startswith("__"):
                 continue
